@@ -6,6 +6,7 @@ import (
 	"os"
 	"strconv"
 	"strings"
+	"time"
 )
 
 // TA: debugging entry point: run one MRO file (env TA_MRO) under Tier A and dump the history.
@@ -46,5 +47,133 @@ func init() {
 		}
 		outs, err := run.TopOuts()
 		fmt.Fprintln(os.Stderr, "final:", run.Final, run.ErrMsg, "outs:", string(outs), err, "events:", len(run.Events), "trace lines:", len(run.Tracer.Lines))
+	})
+}
+
+// GEN: generator statistics: compile acceptance, error categories, Tier-A outcomes.
+func init() {
+	register("GEN", func(c *Ctx) {
+		n := 200
+		if s := os.Getenv("GEN_N"); s != "" {
+			n, _ = strconv.Atoi(s)
+		}
+		accepted, finals, errs := 0, map[string]int{}, map[string]int{}
+		stats := map[string]int{}
+		for i := 0; i < n; i++ {
+			src, st := GenProgram(c.Rng, GenOpts{Files: os.Getenv("GEN_FILES") != ""})
+			if only := os.Getenv("GEN_ONLY"); only != "" && only != fmt.Sprint(i) {
+				continue
+			}
+			os.WriteFile("/tmp/gen_last.mro", []byte(src), 0o644)
+			if os.Getenv("GEN_PROGRESS") != "" {
+				fmt.Fprintln(os.Stderr, "program", i)
+			}
+			run, err := NewTARun(src, c.Scratch, c.Seed+int64(i), TAOpts{StepBias: 0.4, StartSeparate: 0.3, VdrMode: os.Getenv("TA_VDR")})
+			if err != nil {
+				msg := err.Error()
+				if len(msg) > 160 {
+					msg = msg[:160]
+				}
+				errs[msg]++
+				if os.Getenv("GEN_SHOW") != "" && errs[msg] == 1 {
+					fmt.Fprintln(os.Stderr, "=====", msg, "\n", src)
+				}
+				continue
+			}
+			accepted++
+			for k, v := range st {
+				stats[k] += v
+			}
+			run.RunTimed(20 * time.Second)
+			finals[strings.SplitN(run.Final, " goroutine", 2)[0]]++
+			if run.Final == "hang" {
+				os.WriteFile(fmt.Sprintf("/tmp/hang_%d.mro", i), []byte(src), 0o644)
+				os.WriteFile(fmt.Sprintf("/tmp/hang_%d.txt", i), []byte(run.ErrMsg), 0o644)
+				continue
+			}
+			if strings.HasPrefix(run.Final, "panic") || run.Final == "stall" {
+				os.WriteFile(fmt.Sprintf("/tmp/bad_%s_%d.mro", run.Final[:5], i), []byte(src), 0o644)
+			}
+			if run.Final != "complete" && os.Getenv("GEN_SHOWFAIL") != "" && finals[run.Final] <= 2 {
+				fmt.Fprintln(os.Stderr, "===== final", run.Final, run.ErrMsg, "\n", src)
+			}
+			run.Close()
+		}
+		fmt.Fprintln(os.Stderr, "accepted", accepted, "of", n, "finals", finals)
+		fmt.Fprintln(os.Stderr, "stats", stats)
+		for k, v := range errs {
+			fmt.Fprintln(os.Stderr, v, k)
+		}
+	})
+}
+
+// SHRINK: minimise TA_MRO keeping the final outcome's prefix TA_KEEP (e.g. "panic").
+func init() {
+	register("SHRINK", func(c *Ctx) {
+		src, err := os.ReadFile(os.Getenv("TA_MRO"))
+		if err != nil {
+			fatal("%v", err)
+		}
+		keep := os.Getenv("TA_KEEP")
+		pred := func(s string) bool {
+			run, err := NewTARun(s, c.Scratch, c.Seed, TAOpts{StepBias: 0.4, StartSeparate: 0.3, VdrMode: os.Getenv("TA_VDR")})
+			if err != nil {
+				return false
+			}
+			defer run.Close()
+			run.Run()
+			return strings.HasPrefix(run.Final, keep)
+		}
+		if !pred(string(src)) {
+			fatal("original does not satisfy predicate")
+		}
+		out := shrinkLines(string(src), pred, 3000)
+		fmt.Fprintln(os.Stderr, out)
+	})
+}
+
+// GENP: like GEN but through isolated parallel workers.
+func init() {
+	register("GENP", func(c *Ctx) {
+		n := 200
+		if s := os.Getenv("GEN_N"); s != "" {
+			n, _ = strconv.Atoi(s)
+		}
+		var specs []*TASpec
+		for i := 0; i < n; i++ {
+			src, _ := GenProgram(c.Rng, GenOpts{Files: os.Getenv("GEN_FILES") != ""})
+			spec := &TASpec{Name: fmt.Sprint("gen", i), Src: src, Seed: c.Seed + int64(i), StepBias: 0.4, StartSeparate: 0.3,
+				VdrMode: os.Getenv("TA_VDR"), TimeoutS: 20}
+			if os.Getenv("GEN_CRASH") != "" {
+				spec.CrashAt = []int{5 + c.Rng.Intn(30), 40 + c.Rng.Intn(40)}
+				spec.CrashSurvive = 0.3
+			}
+			specs = append(specs, spec)
+		}
+		finals := map[string]int{}
+		os.MkdirAll("/tmp/genp", 0o755)
+		for _, r := range RunSpecs(specs, 12) {
+			f := strings.SplitN(r.Final, " goroutine", 2)[0]
+			if r.Final == "compile-error" {
+				f = "compile-error"
+			}
+			finals[f]++
+			if f != "complete" && f != "compile-error" && f != "failed" {
+				tag := strings.Map(func(r rune) rune {
+					if r >= 'a' && r <= 'z' || r >= '0' && r <= '9' {
+						return r
+					}
+					return '_'
+				}, f)
+				if len(tag) > 30 {
+					tag = tag[:30]
+				}
+				os.WriteFile(fmt.Sprintf("/tmp/genp/%s_%d_%d.mro", tag, c.Seed, r.Index), []byte(specs[r.Index].Src), 0o644)
+			}
+			if f == "failed" && os.Getenv("GEN_SHOWFAIL") != "" {
+				fmt.Fprintln(os.Stderr, "failed:", r.ErrMsg)
+			}
+		}
+		fmt.Fprintln(os.Stderr, "finals", finals)
 	})
 }
